@@ -40,4 +40,35 @@ theorem angR_periodic (x : ℝ) (k : ℤ) : angR (x + k * (2 * Real.pi)) = angR 
 theorem angR_add_pi (x : ℝ) : angR (x + Real.pi) = ⟨-(angR x).c, -(angR x).s⟩ := by
   simp [angR, Real.cos_add_pi, Real.sin_add_pi]
 
+/-! ### the matrices of the documentation (`docs/source/components.rst`), for real angles -/
+
+/-- phase `e^{ix}` -/
+noncomputable def ph (x : ℝ) : ℂ := exp (x * I)
+
+/-- Beam splitter: convention table for `θ`, with "a phase shifter on each mode connected to the
+beam splitter" (written out in the documentation for `Rx`). -/
+noncomputable def bsDoc (conv : Conv) (θ φtl φbl φtr φbr : ℝ) : Matrix (Fin 2) (Fin 2) ℂ :=
+  let c : ℂ := Real.cos (θ / 2)
+  let s : ℂ := Real.sin (θ / 2)
+  match conv with
+  | .Rx => !![ph (φtl + φtr) * c, I * ph (φtr + φbl) * s; I * ph (φtl + φbr) * s, ph (φbr + φbl) * c]
+  | .Ry => !![ph (φtl + φtr) * c, -(ph (φtr + φbl) * s); ph (φtl + φbr) * s, ph (φbr + φbl) * c]
+  | .H => !![ph (φtl + φtr) * c, ph (φtr + φbl) * s; ph (φtl + φbr) * s, -(ph (φbr + φbl) * c)]
+
+noncomputable def psDoc (φ : ℝ) : Matrix (Fin 1) (Fin 1) ℂ := !![ph φ]
+
+noncomputable def wpDoc (δ ξ : ℝ) : Matrix (Fin 2) (Fin 2) ℂ :=
+  !![I * Real.sin δ * Real.cos (2 * ξ) + Real.cos δ, I * Real.sin δ * Real.sin (2 * ξ);
+     I * Real.sin δ * Real.sin (2 * ξ), -(I * Real.sin δ * Real.cos (2 * ξ)) + Real.cos δ]
+
+noncomputable def prDoc (δ : ℝ) : Matrix (Fin 2) (Fin 2) ℂ :=
+  !![(Real.cos δ : ℂ), (Real.sin δ : ℂ); -(Real.sin δ : ℂ), (Real.cos δ : ℂ)]
+
+theorem ph_add (x y : ℝ) : ph (x + y) = ph x * ph y := by
+  unfold ph; rw [← Complex.exp_add]; congr 1; push_cast; ring
+
+theorem ph_periodic (x : ℝ) (k : ℤ) : ph (x + k * (2 * Real.pi)) = ph x := by
+  unfold ph
+  rw [← angR_cis, ← angR_cis, angR_periodic]
+
 end PM.C14
